@@ -186,6 +186,9 @@ func (s *Spec) TestSource() string {
 	for _, id := range sortedIDs(s.Leaves) {
 		fmt.Fprintf(&b, "\t\t\"SLeaf%d\": %q,\n", id, s.Leaves[id].Fn)
 	}
+	for _, id := range sortedIDs(s.BLeaves) {
+		fmt.Fprintf(&b, "\t\t\"SBl%d\": %q,\n", id, s.BLeaves[id])
+	}
 	b.WriteString("\t},\n\tMethodSrc: map[string][][3]string{\n")
 	for _, id := range sortedIDs(s.Structs) {
 		if s.Structs[id].MethodSrc {
